@@ -805,8 +805,14 @@ class AT:
                 else:
                     raise Top(f"index {it!r} on a concrete axis")
             else:
-                if isinstance(it, slice) and it == slice(None):
+                if isinstance(it, slice) and it.start in (None, 0) and it.stop is None and it.step in (None, 1):
                     new_axes.append(a)
+                elif isinstance(it, slice) and a in self.deps() and all(isinstance(z, (int, type(None))) for z in (it.start, it.stop, it.step)):
+                    # fixed positions of an axis that enumerates the rows of a batch / the points of a grid axis: the result
+                    # is about particular rows, whatever the batch holds
+                    raise Finding(f"constant slice [{'' if it.start is None else it.start}:{'' if it.stop is None else it.stop}] "
+                                  f"applied to the row/grid axis {a} of a tensor with axes {self.axes} (an axis of a different "
+                                  f"role was probably meant, e.g. the trailing component axis)")
                 elif isinstance(it, int):
                     if a in self.deps():
                         raise Top(f"integer index on the varying symbolic axis {a}")
